@@ -45,7 +45,7 @@ claimed = {
     ref="3/C03"),
  "C06": dict(
     text="RectClipPaths64 executed on every feasible path for a clip rectangle with 4 symbolic sides against a symbolic rectangle path (both orientations) and a concave notch 8-gon whose arms the rectangle cuts: result vertices within the rectangle, winding number preserved inside / zero outside at a fully symbolic probe point (exact winding oracle, solver decides for all probes), inside-unchanged, outside-vanishes, no panic.",
-    note="isCollinear summarised (lemma in the same check). Sloped input edges outside these jobs. Intersection rounding is over-approximated (off-by-one both ways), which the 2-unit band absorbs.",
+    note="isCollinear summarised (lemma in the same check). Sloped input edges outside these jobs. Intersection rounding is over-approximated (off-by-one both ways), which the 2-unit band absorbs. The thorough tier's full L-hexagon family leaves about 46 of 5773 winding obligations undecided at the 60 s solver limit (reported as inconclusive in the evidence).",
     ref="3/C06"),
  "C11": dict(
     text="RectClipLinesPaths64 executed on every feasible path for a symbolic rectangle against symbolic axis-parallel polylines (2-point segments, L shapes, collinear triples): vertices inside the rectangle and on the line, pieces not closed up, and a symbolic point of the input line more than 2 units from the rectangle boundary is covered iff it is inside the rectangle (two-point crossing segments included).",
